@@ -69,3 +69,65 @@ def map_collect_view(prog, b, t):
             item = ("field", ("downcast", nterm, 1, "Some"), 0, "0", "core::option::Option")
         return {"iter": it, "body": b, "elem": E, "item": item, "kind": "loop", "upvars": None}
     return None
+
+
+
+class Lam:
+    """A one-argument function seen uniformly: a closure, a fn item, the body of a `for` loop, or the Some-arm of a match.
+    `item` / `result` are terms of `body`; outer(t) re-expresses a term of `body` in the coordinates of the enclosing body
+    (captured variables are replaced by what was captured)."""
+
+    def __init__(self, body, item, result, upvars=None, kind="closure", fn=None):
+        self.body, self.item, self.result, self.upvars, self.kind, self.fn = body, item, result, upvars, kind, fn
+
+    def outer(self, t):
+        if self.upvars is None:
+            return t
+        env = ("arg", 1, self.body.names.get(1))
+        ups = self.upvars
+
+        def f(n):
+            if n[0] == "field" and isinstance(n[2], int) and n[2] < len(ups):
+                base = n[1]
+                while base[0] in ("ref", "deref"):
+                    base = base[2] if base[0] == "ref" else base[1]
+                if base == env:
+                    return ups[n[2]]
+            return n
+        return mir.rewrite(t, f)
+
+
+def lam_of(prog, fterm):
+    """Lam for a closure value or a fn item; None otherwise"""
+    cl, ups = mir.closure_of(fterm)
+    if cl:
+        cb = prog.body(cl)
+        if cb is None:
+            return None
+        return Lam(cb, ("arg", 2, cb.names.get(2)), cb.return_term(), list(ups), "closure")
+    f = unref(fterm)
+    if f[0] == "fn":
+        return Lam(None, None, None, None, "fn", fn=f[1])
+    return None
+
+
+def seq_map(prog, b, t):
+    """(iter term with into_iter peeled, Lam) when `t` is `ITER.map(f).collect()` or the equivalent push loop; else None"""
+    v = map_collect_view(prog, b, t)
+    if v is None:
+        # fn item form: ITER.map(path).collect()
+        t0 = unref(t)
+        if is_call(t0, "collect", nargs=1) and is_call(t0[2][0], "core::iter::traits::iterator::Iterator::map", nargs=2):
+            it, f = t0[2][0][2]
+            lam = lam_of(prog, f)
+            if lam is not None:
+                while is_call(it, "into_iter", nargs=1):
+                    it = it[2][0]
+                return it, lam
+        return None
+    it = v["iter"]
+    while is_call(it, "into_iter", nargs=1):
+        it = it[2][0]
+    if v["kind"] == "closure":
+        return it, Lam(v["body"], v["item"], v["elem"], list(v["upvars"]), "closure")
+    return it, Lam(v["body"], v["item"], v["elem"], None, "loop")
